@@ -195,7 +195,7 @@ fn fate_of(evs: &[Ev], calls: &[Call], send_ix: usize, dir: (usize, usize), lmin
         if links::certainly_arrived(send, lmax, tick, m) {
             continue;
         }
-        if lmin == lmax && links::certainly_in_flight(send, lmin, m) {
+        if lmin == lmax && links::certainly_in_flight(send, lmin, tick, m) {
             return (Fate::NeverInFlight(c.ev), repaired_before, true);
         }
         return (Fate::Free, repaired_before, true);
